@@ -174,8 +174,7 @@ def whyLeaf (r : Text.WDef) : Option String :=
 /-- as `whyLeaf`, but a port without direction is accepted (`astLeafU`) -/
 def whyLeafU (r : Text.WDef) : Option String :=
   if r.lib != "hdi_primitives" then some "not-a-primitive"
-  else if !(r.attrs.getD []).isEmpty then some "attributes"
-  else if r.params.isSome then some "parameters"
+  else if (astParams r).isNone then some "parameter-without-value"
   else r.ports.findSome? (fun p =>
     match p.name with
     | none => some "port-unnamed"
@@ -298,7 +297,7 @@ def whyFoldLateA : List Def → Nat → String → List WAnyA → String
         | .work m => "late-work:" ++ whyLateWA L (tbl.filter (fun x => x.name != m.base.name)) n m t
         | .leaf lf =>
           if L.lib.isSome then "late-leaf:declared-twice"
-          else if L.ports.map (·.name) != (lf.ports.map (·.name)).map some then
+          else if L.ports.map (·.name) != (lf.base.ports.map (·.name)).map some then
             "late-leaf:ports-of-the-first-instance-are-not-the-declared-ports(order-or-subset)"
           else "late-leaf:header-or-port-declaration(range-narrower-than-the-first-instance's-row,…)"
 
@@ -387,7 +386,7 @@ def reportHierTextA (n : Text.WNet) : Bool × String :=
           else orElseS ((whyTokA m.toA).map (fun s => "tokOK:" ++ s)) fun _ =>
             orElseS (Ps.findSome? (fun P => match P with
               | .work mm => (whyTokA mm.toA).map (fun s => "tokOK:" ++ s)
-              | .leaf lf => if leafOK lf then none else some "leafOK:tokens-of-a-leaf")) fun _ =>
+              | .leaf lf => if leafOKX (inoutifyX lf) then none else some "leafOK:tokens-of-a-leaf(names,attributes,parameter-keys)")) fun _ =>
             orElseS (((filePHA n m Ps).findSome? pieceWhy).map (fun s => "piece:" ++ s)) fun _ =>
             if !adjOK (filePHA n m Ps) then some "adjOK:a-word-runs-into-the-next-piece"
             else if !Text.isCommentTok ("//netlist name: " ++ Text.fixName n.name) then some "netlist-name-comment"
